@@ -134,6 +134,11 @@ def inv(t):
             LOG.append({'fn': 'inv', 'arg': a.copy(), 'out': out.a, 'how': 'congruent'})
             return out
     r = _fresh(a.shape, 'inv')
+    if _congruent(a, a.T):
+        # the inverse of a symmetric matrix is symmetric
+        for i in range(a.shape[0]):
+            for j in range(i):
+                r[i, j] = r[j, i]
     MEMO['inv'].append((a.copy(), r))
     LOG.append({'fn': 'inv', 'arg': a.copy(), 'out': r, 'how': 'fresh'})
     return t._new(r.copy())
